@@ -255,16 +255,34 @@ def settle_vf(chk, res, broken, ofail, tag="c07"):
     chk.coverage["crashes"] = len(crash)
 
 
+def _links_of(ops):
+    """(channels, rate, samples) of every link of the chain, encoder-made (`link`) or hand-muxed (`rawbegin` .. `rawend`), in file order"""
+    out, raw = [], None
+    for o in ops:
+        if o.startswith("link "):
+            t = o.split(" ")
+            out.append((int(t[1]), int(t[2]), int(t[4])))
+        elif o.startswith("rawbegin "):
+            b = bytes.fromhex(o.split(" ")[2])
+            raw = [b[11], int.from_bytes(b[12:16], "little"), 0]
+        elif o.startswith("rawpk ") and raw is not None:
+            raw[2] = int(o.split(" ")[2])
+        elif o.startswith("rawend") and raw is not None:
+            out.append((raw[0], raw[1], max(0, raw[2])))
+            raw = None
+    return out
+
+
 def link_lengths(ops):
-    return [int(o.split(" ")[4]) for o in ops if o.startswith("link ")]
+    return [x[2] for x in _links_of(ops)]
 
 
 def link_rates(ops):
-    return [int(o.split(" ")[2]) for o in ops if o.startswith("link ")]
+    return [x[1] for x in _links_of(ops)]
 
 
 def link_channels(ops):
-    return [int(o.split(" ")[1]) for o in ops if o.startswith("link ")]
+    return [x[0] for x in _links_of(ops)]
 
 
 # ---- hand-made links: any legal set-up, silent audio packets --------------------------------------
